@@ -5,44 +5,16 @@
     ([Context._prefix_commands], [cwd], [cd]/[prefix], [_sudo]). *)
 From InvokeVerif Require Import Model.CtxCmdModel Spec.C15Spec Proofs.C15_opts Proofs.C15_ctx.
 
-(** "Full hiding suppresses echo" is read STRICTLY by the specification: a hide value
-    naming both streams -- [True] or ['both'], which the docstring of [run] gives as one
-    and the same setting -- switches echo off (dry-run apart).  The code tests
-    [opts["hide"] is True] only; [hide='both', echo=True] still echoes (F-C15c).
-    [spec_ok_opts] = [spec_ok_opts_r true] is the strict reading,
-    [spec_ok_opts_r false] the literal one the code implements; they differ exactly
-    when hide is 'both', echo is asked for and dry-run is off ([C15_readings_differ_iff]). *)
+(** "Full hiding suppresses echo": a hide value naming both streams -- [True] or
+    ['both'], which the docstring of [run] gives as one and the same setting -- switches
+    echo off (dry-run apart); the code does exactly that since fix f03a111. *)
 
-(** Flagship, part A (partial): for every configuration, parent environment, command
-    and keyword arguments -- every combination of options given as keyword argument,
-    explicit None, configured or not at all -- on which the two readings agree, what the
-    model of [Runner.run] does up to [start] is accepted by the executable
-    specification.  Missing: hide='both' with echo on (next theorem). *)
-Theorem C15_run_meets_spec_partial : forall c parent command k,
-  echo_readings_agree c k = true ->
+(** Flagship, part A (full strength): for every configuration, parent environment,
+    command and keyword arguments -- every combination of options given as keyword
+    argument, explicit None, configured or not at all -- what the model of
+    [Runner.run] does up to [start] is accepted by the executable specification. *)
+Theorem C15_run_meets_spec : forall c parent command k,
   spec_ok_opts c parent command k (run_model c parent command k) = true.
-Proof. exact run_meets_spec_strict. Qed.
-
-Theorem C15_full_hiding_suppresses_echo_refuted :
-  exists c parent command k,
-    rejected c k = None /\ want c k Hide = OStr "both" /\
-    (exists r, o_res (run_model c parent command k) = Some r /\ r_opts r Hide = OList ["stdout"; "stderr"]) /\
-    o_echo (run_model c parent command k) = Some ("RUN ls" ++ String (ascii_of_nat 10) "")%string /\
-    spec_ok_opts c parent command k (run_model c parent command k) = false /\
-    o_echo (run_model c parent command
-                      (mkKw (fun o => match o with Hide => Some (OBool true) | Echo => Some (OBool true)
-                                              | _ => None end) None [])) = None.
-Proof. exact hide_both_echo_refuted. Qed.
-
-Theorem C15_readings_differ_iff : forall c k,
-  echo_readings_agree c k = false <->
-  (is_True (want c k Dry) = false /\ want c k Hide = OStr "both" /\ truthy (want c k Echo) = true).
-Proof. exact readings_agree_iff. Qed.
-
-(** Under the literal reading (hide IS True) the model meets the specification for
-    every input, no side condition: all other clauses hold at full strength. *)
-Theorem C15_run_meets_spec_literal_reading : forall c parent command k,
-  spec_ok_opts_r false c parent command k (run_model c parent command k) = true.
 Proof. exact run_meets_spec. Qed.
 
 (** kwarg (not None) > configured > built-in default, for every option; the two
@@ -77,11 +49,11 @@ Theorem C15_rejected_cases : forall c k,
    rejected c k = Some EValue).
 Proof. exact rejected_cases. Qed.
 
-(** (The first clause is the literal reading: [hide is True].) *)
+(** (Full hiding: hide is True or 'both'.) *)
 Theorem C15_interactions : forall c parent command k,
   rejected c k = None ->
   let out := run_model c parent command k in
-  (is_True (want c k Hide) = true -> is_True (want c k Dry) = false -> o_echo out = None) /\
+  (fully_hidden (want c k Hide) = true -> is_True (want c k Dry) = false -> o_echo out = None) /\
   (is_True (want c k Dry) = true ->
    o_started out = None /\ o_echo out = Some (fill (want c k EchoFormat) command)) /\
   (truthy (want c k Asynchronous) = true ->
@@ -133,22 +105,15 @@ Theorem C15_restoration_needs_finally : forall cc,
   fst (fst (exec_with cl cc (SBlock (BPrefix "p") [SRaise XBoom]) c0)) = c0.
 Proof. exact leaky_clause. Qed.
 
-(** Flagship, part B: whole programs of nested cd / prefix / try blocks around run and
-    sudo calls with arbitrary keyword arguments, failing commands and raises of every
-    kind -- each call judged as in part A (the arguments of [start] with the composed
-    command, the resolved options incl. timeout and the watchers sudo hands on,
-    streams, echo; nothing started for refused calls), the final stacks, the exception
-    that comes out -- are accepted by the executable specification: under the strict
-    reading when the readings agree on every call (partial: F-C15c is the only thing
-    missing), under the literal reading always. *)
-Theorem C15_program_meets_spec_partial : forall cc prog,
-  readings_agree_prog cc prog = true ->
+(** Flagship, part B (full strength, no side condition): whole programs of nested
+    cd / prefix / try blocks around run and sudo calls with arbitrary keyword
+    arguments, failing commands and raises of every kind -- each call judged as in
+    part A (the arguments of [start] with the composed command, the resolved options
+    incl. timeout and the watchers sudo hands on, streams, echo; nothing started for
+    refused calls), the final stacks, the exception that comes out -- are accepted by
+    the executable specification. *)
+Theorem C15_program_meets_spec : forall cc prog,
   spec_ok_ctx cc prog (snd (fst (run_program cc prog))) (fst (fst (run_program cc prog)))
-              (snd (run_program cc prog)) = true.
-Proof. exact program_meets_spec_strict. Qed.
-
-Theorem C15_program_meets_spec_literal_reading : forall cc prog,
-  spec_ok_ctx_r false cc prog (snd (fst (run_program cc prog))) (fst (fst (run_program cc prog)))
               (snd (run_program cc prog)) = true.
 Proof. exact program_meets_spec. Qed.
 
@@ -253,21 +218,13 @@ Proof. exact sudo_watchers_none_before_fix_refuted. Qed.
     "core values -> config overrides" of C18, the "-T" of C14). *)
 From InvokeVerif Require Import Model.ProgramModel Spec.C15CliSpec Proofs.Program_update.
 
-(** Flagship of this part: for all core flags, lower configuration, environment
-    variable, parent environment, command and keyword arguments -- the overrides level
-    the model builds, the runtime path it chooses and what the runner then does are
-    accepted by the executable specification (which reads the flags directly): under
-    the strict echo reading when the readings agree (partial, F-C15c), under the
-    literal one always. *)
-Theorem C15_cli_meets_spec_partial : forall a lower env_var parent command k,
-  echo_readings_agree (documented_config a lower) k = true ->
+(** Flagship of this part (full strength): for all core flags, lower configuration,
+    environment variable, parent environment, command and keyword arguments -- the
+    overrides level the model builds, the runtime path it chooses and what the runner
+    then does are accepted by the executable specification (which reads the flags
+    directly). *)
+Theorem C15_cli_meets_spec : forall a lower env_var parent command k,
   spec_ok_cli a lower env_var parent command k
-              (overrides_of a) (runtime_path_of a env_var)
-              (run_model_cli a lower parent command k) = true.
-Proof. exact cli_meets_spec_strict. Qed.
-
-Theorem C15_cli_meets_spec_literal_reading : forall a lower env_var parent command k,
-  spec_ok_cli_r false a lower env_var parent command k
               (overrides_of a) (runtime_path_of a env_var)
               (run_model_cli a lower parent command k) = true.
 Proof. exact cli_meets_spec. Qed.
@@ -391,3 +348,15 @@ Example C15_example_cli :
   | Err _ => False
   end.
 Proof. vm_compute. repeat split; reflexivity. Qed.
+
+(** * Historical record (continued) -- NOT about the code in /repo
+    Before fix f03a111 only [hide is True] switched echo off: [hide='both', echo=True]
+    echoed the command although both streams were hidden (F-C15c).  The witness is in
+    KNOWN_FINDINGS / corpus and now has to pass. *)
+Theorem C15_before_fix_hide_both_echo_historical_refuted :
+  exists c parent command k,
+    rejected c k = None /\ want c k Hide = OStr "both" /\
+    truthy (echo_val_before_fix c k) = true /\
+    echo_on c k = false /\
+    o_echo (run_model c parent command k) = None.
+Proof. exact hide_both_echo_before_fix_refuted. Qed.
